@@ -61,7 +61,7 @@ mod h {
     fn ser_like_twin() {
         let x: u64 = kani::any();
         let sel: u8 = kani::any();
-        kani::assume(sel < 9);
+        kani::assume(sel < 10);
         let (g, t) = match sel {
             0 => (record(&Exec::Ga { a: N64(x) }), record(&tw::ExecMsg::Ga { a: N64(x) })),
             1 => (record(&Exec::Gb { b: Some(x as u32) }), record(&tw::ExecMsg::Gb { b: Some(x as u32) })),
@@ -71,6 +71,7 @@ mod h {
             5 => (record(&Sudo::Gw { w: x }), record(&tw::SudoMsg::Gw { w: x })),
             6 => (record(&IfgExec::Ig { t: x as u32 }), record(&IfnExecMsg::Ig { t: x as u32 })),
             7 => (record(&Migr { w: x }), record(&tw::MigrateMsg { w: x })),
+            9 => (record(&Exec::Gz { z: N64(x) }), record(&tw::ExecMsg::Gz { z: N64(x) })),
             _ => (record(&Inst {}), record(&tw::InstantiateMsg {})),
         };
         match (&g, &t) {
